@@ -3,7 +3,8 @@ From Coq Require Import Reals List Lra.
 From AhrsLib Require Import Base Rot Dcm2q.
 From AhrsModel Require Import C02_itzhack.
 From AhrsGen Require Import C02gen_R.
-From AhrsProps Require Import C02_shepperd C02_chiaverini C02_hughes C02_sarabandi C02_itzhack C02_domain.
+From AhrsProps Require Import C02_shepperd C02_chiaverini C02_hughes C02_sarabandi C02_itzhack C02_domain
+  C02_halfturn C02_disp_hughes.
 Import ListNotations.
 Open Scope R_scope.
 
@@ -145,3 +146,50 @@ Theorem C02_itzhack_inverts : forall (eig_select : nat -> list R -> R * list R),
   exists s, (s = 1 \/ s = -1) /\ itzhack_model eig_select ver (Rspec [w;x;y;z]) = [s*w; s*x; s*y; s*z].
 Proof. intros eig_select HC ver w x y z H Hv. exact (itzhack_inverts_contract eig_select HC ver w x y z H Hv). Qed.
 Print Assumptions C02_itzhack_inverts.
+
+(* the three dispatchers — DCM(R).to_quaternion(method), Quaternion(dcm=R, method=…), QuaternionArray(DCM=[R], method=…)[0] —
+   with method 'hughes', on the textbook matrix of a unit quaternion: SO(3) gates, extra normalisations and the
+   constructors' zero-norm checks included, each returns sgn(w) q.
+   (Chiaverini and Shepperd on the three routes, Sarabandi with a symbolic threshold: C02_thorough.v, thorough tier.) *)
+Theorem C02_dispatch_hughes : forall w x y z, w*w + x*x + y*y + z*z = 1 -> 1/100000000 < Rabs w ->
+  let r := Val [Rsgn w * w; Rsgn w * x; Rsgn w * y; Rsgn w * z] in
+  C02_DCM_hughes_q_R w x y z = r /\ C02_Q_hughes_q_R w x y z = r /\ C02_QA_hughes_q_R w x y z = r.
+Proof.
+  intros w x y z H Hw.
+  split; [exact (DCM_hughes w x y z H Hw)|]. split; [exact (Q_hughes w x y z H Hw)|exact (QA_hughes w x y z H Hw)].
+Qed.
+Print Assumptions C02_dispatch_hughes.
+
+(* Bar-Itzhack version 3 (the default), the REAL code after eig/eigh — column selection by argmax, roll, negation,
+   normalisation, regenerated with the solver's output as symbolic inputs: if every returned column is a real unit
+   eigenvector of K3(Rspec q) for its eigenvalue and the eigenvalue 1 is among those returned, the code returns +-q *)
+Theorem C02_itzhack_v3_code_inverts : forall w x y z l0 l1 l2 l3 v00 v01 v02 v03 v10 v11 v12 v13 v20 v21 v22 v23 v30 v31 v32 v33,
+  w*w + x*x + y*y + z*z = 1 ->
+  (forall l a b c d, In (l, [a;b;c;d]) [(l0,[v00;v10;v20;v30]); (l1,[v01;v11;v21;v31]); (l2,[v02;v12;v22;v32]); (l3,[v03;v13;v23;v33])] ->
+     mv4 (K3of (Rspec [w;x;y;z])) [a;b;c;d] = [l*a; l*b; l*c; l*d] /\ a*a+b*b+c*c+d*d = 1) ->
+  (l0 = 1 \/ l1 = 1 \/ l2 = 1 \/ l3 = 1) ->
+  exists s, (s = 1 \/ s = -1) /\
+    C02_itzhack_post_v3_R l0 l1 l2 l3 v00 v01 v02 v03 v10 v11 v12 v13 v20 v21 v22 v23 v30 v31 v32 v33 = Val [s*w; s*x; s*y; s*z].
+Proof.
+  intros w x y z l0 l1 l2 l3 v00 v01 v02 v03 v10 v11 v12 v13 v20 v21 v22 v23 v30 v31 v32 v33 H HP H1.
+  apply (itzhack_v3_code w x y z l0 l1 l2 l3 v00 v01 v02 v03 v10 v11 v12 v13 v20 v21 v22 v23 v30 v31 v32 v33 H).
+  - apply HP. left. reflexivity.
+  - apply HP. right. left. reflexivity.
+  - apply HP. right. right. left. reflexivity.
+  - apply HP. right. right. right. left. reflexivity.
+  - exact H1.
+Qed.
+Print Assumptions C02_itzhack_v3_code_inverts.
+
+(* the domain of the closed-form trio is sharp: AT exact half-turns (w = 0; excluded by the property for these methods)
+   Chiaverini's 3x3 form returns the identity quaternion, its N x 3 x 3 form the zero row over a zero norm (NaN in
+   binary64), Hughes returns (0,|x|,|y|,|z|) in both forms — which for the axis (3/5,-4/5,0) is a different rotation *)
+Theorem C02_closed_form_at_half_turns : forall x y z, x*x + y*y + z*z = 1 ->
+  C02_chiaverini_q_R 0 x y z = Val [1; 0; 0; 0] /\ C02_chiaverini_batch_q_R 0 x y z = Val [0; 0; 0; 0] /\
+  C02_hughes_q_R 0 x y z = Val [0; Rabs x; Rabs y; Rabs z] /\ C02_hughes_batch_q_R 0 x y z = Val [0; Rabs x; Rabs y; Rabs z] /\
+  (exists x' y' z' r, x'*x'+y'*y'+z'*z' = 1 /\ C02_hughes_q_R 0 x' y' z' = Val r /\ Rspec r <> Rspec [0;x';y';z']).
+Proof.
+  intros x y z H. split; [exact (chiaverini_at_half_turn x y z H)|]. split; [exact (chiaverini_batch_at_half_turn x y z H)|].
+  split; [exact (proj1 (hughes_at_half_turn x y z H))|]. split; [exact (proj2 (hughes_at_half_turn x y z H))|exact hughes_half_turn_not_inverse].
+Qed.
+Print Assumptions C02_closed_form_at_half_turns.
